@@ -183,8 +183,11 @@ func boolFieldGuard(field *types.Var, val bool) guardPred {
 
 func isStoreTo(in ssa.Instruction, f *types.Var) (*ssa.Store, bool) {
 	st, ok := in.(*ssa.Store)
-	if !ok {
+	if !ok || f == nil {
 		return nil, false
+	}
+	if prm, isP := st.Addr.(*ssa.Parameter); isP && containerFieldOfRecv(prm) == f {
+		return st, true
 	}
 	fa, ok := st.Addr.(*ssa.FieldAddr)
 	if !ok || fieldOfAddr(fa) != f {
